@@ -326,7 +326,28 @@ def check_getitem(kind: int, key: bytes) -> bool:
     return r1 == r2 and c1 == c2 and len(c1) >= 1 and c1[0][1][-1] == key
 
 
+def check_log_ctor(kind: int, mc: int, res: int) -> bool:
+    """
+    pre: 1 <= kind <= 2 and 70000 <= mc < 2**64 and 0 <= res < 255
+    post: _ == True
+    """
+    for k in (1, 2):
+        if kind == k:
+            sk = CM.CountMinLog16(3, 2, mc, res) if k == 1 else CM.CountMinLog8(3, 2, mc, res)
+            return sk.rand_ptr == 0 and tuple(sk.rand_nums.shape) == (2048,)
+    return True
+
+
 # ---------------------------------------------------------------------------------------------- real-library replays
+def real_log_ctor(kind, mc, res):
+    try:
+        sk = CM.CountMinLog16(3, 2, mc, res) if kind == 1 else CM.CountMinLog8(3, 2, mc, res)
+    except ValueError:
+        return True, "constructor refused the configuration"
+    ok = int(sk.rand_ptr) == 0 and sk.rand_nums.shape == (2048,) and float(sk.rand_nums.min()) >= 0.0 and float(sk.rand_nums.max()) < 1.0
+    return ok, f"rand_ptr={sk.rand_ptr}, batch shape {sk.rand_nums.shape}"
+
+
 def _state(sk):
     out = []
     for nm in ("cms", "n_added_records", "lhh", "lhh_count", "key_lens", "registers"):
